@@ -17,3 +17,5 @@ open Emboss.Fmt
 #print axioms C11_idempotent_partial
 #print axioms C11_retokenize_partial
 #print axioms C11_row_retokenizes_partial
+#print axioms C11_retokenize_module_partial
+#print axioms C11_columnize_retokenizes_partial
